@@ -4,6 +4,7 @@ import (
 	"context"
 	"encoding/hex"
 	"fmt"
+	"sort"
 	"sync"
 	"sync/atomic"
 	"time"
@@ -81,6 +82,10 @@ type RPCRecord struct {
 	ExecErr                     error
 	Returned                    bool // the caller got Resp (not an error)
 	RetErr                      error
+
+	fkey    string        // plan key that decided Fate
+	cutCh   chan struct{} // closed when the client is cut
+	admitCh chan struct{} // closed when the simulator admitted the request
 }
 
 // Topo lets the network change the cluster when a fate asks for it.
@@ -122,6 +127,7 @@ type Net struct {
 	fault      *Hasher
 	Fired      []FiredFault
 	down       chan struct{} // closed by Shutdown: every parked caller returns
+	pending    []*RPCRecord  // submitted, not yet admitted (see admit)
 	inflight   atomic.Int64
 	lastSubmit atomic.Int64
 	// Describe renders the cluster layout for diagnostics.
@@ -143,7 +149,7 @@ type FiredFault struct {
 
 // NewNet creates the network.
 func NewNet(s *Sim, b Backend) *Net {
-	return &Net{
+	n := &Net{
 		Sim: s, Backend: b,
 		Plan:       map[string]Fate{},
 		Persist:    map[string]Fate{},
@@ -158,6 +164,86 @@ func NewNet(s *Sim, b Backend) *Net {
 		down:       make(chan struct{}),
 		lat:        NewHasher(s.Seed, "latency"),
 		fault:      NewHasher(s.Seed, "fault"),
+	}
+	s.OnQuiescent = append(s.OnQuiescent, n.admitPending)
+	return n
+}
+
+// admit blocks the caller until the simulator has admitted its request. Requests submitted during
+// the same quiescence interval (e.g. the concurrently sent batches of one commit) are admitted in a
+// canonical order (client, identity), so that ordinals, occurrence numbers, stamps and therefore
+// fates do not depend on the order in which the Go scheduler ran the submitting goroutines.
+func (n *Net) admit(rec *RPCRecord) {
+	n.mu.Lock()
+	if !n.Sim.Running() {
+		n.mu.Unlock()
+		n.admitOne(rec)
+		return
+	}
+	rec.admitCh = make(chan struct{})
+	n.pending = append(n.pending, rec)
+	n.mu.Unlock()
+	n.Sim.Wake()
+	<-rec.admitCh
+}
+
+// admitPending runs on the simulator goroutine at quiescence.
+func (n *Net) admitPending() bool {
+	n.mu.Lock()
+	p := n.pending
+	n.pending = nil
+	n.mu.Unlock()
+	if len(p) == 0 {
+		return false
+	}
+	sort.SliceStable(p, func(i, j int) bool {
+		if p[i].Client != p[j].Client {
+			return p[i].Client < p[j].Client
+		}
+		return p[i].Identity < p[j].Identity
+	})
+	for _, rec := range p {
+		n.admitOne(rec)
+		close(rec.admitCh)
+	}
+	return true
+}
+
+// admitOne numbers the request, decides its fate and applies a crash-before.
+func (n *Net) admitOne(rec *RPCRecord) {
+	c := rec.Client
+	n.mu.Lock()
+	rec.ID = len(n.trace)
+	rec.Ordinal = n.ordinal[c]
+	n.ordinal[c]++
+	rec.Mark = n.mark[c]
+	rec.MarkOrd = n.markOrd[c]
+	n.markOrd[c]++
+	rec.cutCh = n.cutChLocked(c)
+	n.trace = append(n.trace, rec)
+	n.mu.Unlock()
+	rec.Occ = n.Sim.Occ(rec.Identity)
+	rec.SubmitSeq = n.Sim.Stamp()
+	rec.SubmitAt = n.Sim.Now()
+	n.lastSubmit.Store(int64(rec.SubmitAt))
+	select {
+	case <-rec.cutCh:
+		rec.Fate = "cut"
+		rec.RetErr = ErrSimCut
+		return
+	default:
+	}
+	rec.Fate, rec.fkey = n.fateFor(rec)
+	if n.OnSubmit != nil {
+		n.OnSubmit(rec)
+	}
+	if rec.Fate == CrashBefore {
+		n.mu.Lock()
+		n.Fired = append(n.Fired, FiredFault{Key: rec.fkey, Fate: rec.Fate, Cmd: rec.Type.String()})
+		n.cutLocked(c)
+		n.mu.Unlock()
+		n.Sim.Count("fault." + string(rec.Fate))
+		rec.RetErr = ErrSimCut
 	}
 }
 
@@ -501,45 +587,15 @@ func (c *Conn) SendRequest(ctx context.Context, addr string, req *tikvrpc.Reques
 	snap := *req
 	req = &snap
 
-	n.mu.Lock()
-	rec := &RPCRecord{ID: len(n.trace), Client: c.ID, Addr: addr, Type: req.Type, Req: req}
+	rec := &RPCRecord{Client: c.ID, Addr: addr, Type: req.Type, Req: req}
 	rec.Identity = identityOf(c.ID, req)
-	rec.Ordinal = n.ordinal[c.ID]
-	n.ordinal[c.ID]++
-	rec.Mark = n.mark[c.ID]
-	rec.MarkOrd = n.markOrd[c.ID]
-	n.markOrd[c.ID]++
-	cutCh := n.cutChLocked(c.ID)
-	n.trace = append(n.trace, rec)
-	n.mu.Unlock()
-	rec.Occ = n.Sim.Occ(rec.Identity)
-	rec.SubmitSeq = n.Sim.Stamp()
-	rec.SubmitAt = n.Sim.Now()
 	n.inflight.Add(1)
-	n.lastSubmit.Store(int64(rec.SubmitAt))
 	defer n.inflight.Add(-1)
-
-	select {
-	case <-cutCh:
-		rec.Fate = "cut"
-		rec.RetErr = ErrSimCut
-		return nil, ErrSimCut
-	default:
-	}
-	var fkey string
-	rec.Fate, fkey = n.fateFor(rec)
-	if n.OnSubmit != nil {
-		n.OnSubmit(rec)
-	}
-	if rec.Fate == CrashBefore {
-		n.mu.Lock()
-		n.Fired = append(n.Fired, FiredFault{Key: fkey, Fate: rec.Fate, Cmd: rec.Type.String()})
-		n.cutLocked(c.ID)
-		n.mu.Unlock()
-		n.Sim.Count("fault." + string(rec.Fate))
-		rec.RetErr = ErrSimCut
+	n.admit(rec)
+	if rec.Fate == "cut" || rec.Fate == CrashBefore {
 		return nil, ErrSimCut
 	}
+	cutCh, fkey := rec.cutCh, rec.fkey
 
 	ch := make(chan rpcResult, 1)
 	idk := fmt.Sprintf("%s#%d", rec.Identity, rec.Occ)
